@@ -28,6 +28,10 @@ MODULE = 'SshAudit.Props.C09'
 NAMESPACE = 'SshAudit.C09'
 THEOREMS = ['recv_spec', 'ensureReadAux_spec', 'ensureRead_spec', 'readPacket_no_type_error', 'getBannerAux_spec', 'ensureRead_ok', 'ensureRead_fail',
             'readPacket_cost', 'handshake_cost', 'malformed_handshake_no_report', 'handshake_ok_sound', 'probe_misbehaviour_contained', 'probe_exception_is_none', 'readList_prefix', 'kexinit_prefix_rejected', 'readList_strict', 'kexParse_accepts_only_complete']
+# functions / statement blocks of the code whose Lean definitions are regenerated from the source on every run (harness/translate_logic.py);
+# `GenLogic.<name>_eq_model` (lean/SshAudit/Props/GenLogic*.lean) ties each to the hand-written model function the theorems above are about
+GEN_LOGIC = ['read_packet_bad_block', 'read_packet_bad_length', 'read_packet2_lengths']
+
 TECHNIQUE = 'Lean 4 theorems (induction over arbitrary finite receive-event lists: stall and recv-call bounds, exception taxonomy of the packet reader, handshake classification ⇒ exit status) + event-level and byte-level fault-injection correspondence with audit()/main()'
 LEVEL_TEXT = ('The receive side of the socket class is modelled over arbitrary finite event lists (any bytes, any segmentation, stalls, resets, close) and it is proved by induction that every read loop stops at the first '
               'stall, that the handshake waits for at most two timeouts (one unless the identification line came without its line ending) and makes at most (#events + 2) recv calls, that the packet reader can only leave through the two framing exits, and that every handshake class but "ok" '
